@@ -13,7 +13,10 @@
 //	                                ascending / descending, s/p the shallowest / deepest keys first by
 //	                                their REAL depth in the tree below the map, measured through the public
 //	                                API as the number of comparator calls GetOK(key) makes (only for a
-//	                                Map from NewFunc, i.e. a comparator other than n; ties by rank).
+//	                                Map from NewFunc, i.e. a comparator other than n; ties by rank); P the
+//	                                keys with the shortest longest root-to-leaf path through them first
+//	                                (the keys GetOK(k) compares k with are k's ancestors): what remains are
+//	                                the deepest keys WITH their ancestors.
 //	                                item d<number of Deletes that returned true>
 //	Q<s>                            probe every key, see probe() for the item
 package main
@@ -151,7 +154,7 @@ func orderIdx(pat byte, n, seed int) []int {
 }
 
 // removalIdx: which ranks (of L keys) to remove, in order, so that keep remain
-func removalIdx(ord byte, L, keep, seed int, depths func() []int) []int {
+func removalIdx(ord byte, L, keep, seed int, metric func(ord byte) []int) []int {
 	m := L - keep
 	if m <= 0 || keep < 0 {
 		return nil
@@ -182,14 +185,14 @@ func removalIdx(ord byte, L, keep, seed int, depths func() []int) []int {
 			out = reversed(out)
 		}
 		return out
-	case 's', 'p':
-		d := depths()
+	case 's', 'p', 'P':
+		d := metric(ord)
 		idx := orderIdx('a', L, 0)
 		sort.SliceStable(idx, func(a, b int) bool {
-			if ord == 's' {
-				return d[idx[a]] < d[idx[b]]
+			if ord == 'p' {
+				return d[idx[a]] > d[idx[b]]
 			}
-			return d[idx[a]] > d[idx[b]]
+			return d[idx[a]] < d[idx[b]]
 		})
 		return idx[:m]
 	}
@@ -305,14 +308,21 @@ func probe(h omap.Map[int, int], s int) string {
 	return "q/" + strings.Join(f, "/")
 }
 
-// intMacro returns the function that runs a B, D or Q operation on h; handled is false when op is
-// none of them, edited reports that the map may have changed (iterators positioned before are
-// stale).  ncmp is the counter the map's comparator increments on every call, nil for omap.New.
-func intMacro(ncmp *int) func(h omap.Map[int, int], op string) (item string, handled, edited bool) {
-	return func(h omap.Map[int, int], op string) (string, bool, bool) { return intMacroOp(ncmp, h, op) }
+// cmpLog: what the comparator given to NewFunc records while on: the second argument of every call
+// (stree calls compare(key, node key): the keys a lookup is compared with are the nodes on its path)
+type cmpLog struct {
+	on   bool
+	seen []int
 }
 
-func intMacroOp(ncmp *int, h omap.Map[int, int], op string) (item string, handled, edited bool) {
+// intMacro returns the function that runs a B, D or Q operation on h; handled is false when op is
+// none of them, edited reports that the map may have changed (iterators positioned before are
+// stale).  lg is the log the map's comparator writes, nil for omap.New.
+func intMacro(lg *cmpLog) func(h omap.Map[int, int], op string) (item string, handled, edited bool) {
+	return func(h omap.Map[int, int], op string) (string, bool, bool) { return intMacroOp(lg, h, op) }
+}
+
+func intMacroOp(lg *cmpLog, h omap.Map[int, int], op string) (item string, handled, edited bool) {
 	if op == "" {
 		return "", false, false
 	}
@@ -348,21 +358,36 @@ func intMacroOp(ncmp *int, h omap.Map[int, int], op string) (item string, handle
 		}
 		keep, ok1 := atoiOK(a[1])
 		seed, ok2 := atoiOK(a[2])
-		if !ok1 || !ok2 || !strings.Contains("lhoibBreEsp", a[0]) || (ncmp == nil && strings.Contains("sp", a[0])) {
+		if !ok1 || !ok2 || !strings.Contains("lhoibBreEspP", a[0]) || (lg == nil && strings.Contains("spP", a[0])) {
 			return "?", true, false
 		}
 		keys := h.Keys()
 		cnt := 0
-		depths := func() []int { // comparator calls of GetOK(key): one per node on the path to the key
+		metric := func(ord byte) []int {
+			// s/p: the number of nodes on the path to each key; P: the largest such number among the keys
+			// below it (itself included)
+			rank := make(map[int]int, len(keys))
+			for i, k := range keys {
+				rank[k] = i
+			}
 			d := make([]int, len(keys))
 			for i, k := range keys {
-				*ncmp = 0
+				lg.on, lg.seen = true, lg.seen[:0]
 				h.GetOK(k)
-				d[i] = *ncmp
+				lg.on = false
+				if ord != 'P' {
+					d[i] = len(lg.seen)
+					continue
+				}
+				for _, a := range lg.seen {
+					if j, ok := rank[a]; ok && len(lg.seen) > d[j] {
+						d[j] = len(lg.seen)
+					}
+				}
 			}
 			return d
 		}
-		for _, j := range removalIdx(a[0][0], len(keys), keep, seed, depths) {
+		for _, j := range removalIdx(a[0][0], len(keys), keep, seed, metric) {
 			if h.Delete(keys[j]) {
 				cnt++
 			}
